@@ -25,9 +25,9 @@ type Strat struct {
 	// value for every date row (same length as the snapshots), nil if not stated.
 	Cols func(s strategy.Strategy, snaps []*asset.Snapshot) map[string][]float64
 	// Recorded findings (ids listed in /verif/known_findings.json).
-	KFLen  func(cfg []int, n int) string           // C05: number of actions
-	KFRule func(cfg []int, n, i int) string        // C06: rule at position i
-	KFCol  func(cfg []int, n int, col string) string // C14: column length / content
+	KFLen     func(cfg []int, n int) string             // C05: number of actions
+	KFRule    func(cfg []int, n, i int) string          // C06: rule at position i
+	KFCol     func(cfg []int, n int, col string) string // C14: column length / content
 	KFOutcome func(cfg []int, n int) string
 }
 
@@ -65,11 +65,21 @@ func SymSnapshots(prefix string, n int) []*asset.Snapshot {
 }
 
 // field extractors
-func fOpen(ss []*asset.Snapshot) []float64  { return fld(ss, func(s *asset.Snapshot) float64 { return s.Open }) }
-func fHigh(ss []*asset.Snapshot) []float64  { return fld(ss, func(s *asset.Snapshot) float64 { return s.High }) }
-func fLow(ss []*asset.Snapshot) []float64   { return fld(ss, func(s *asset.Snapshot) float64 { return s.Low }) }
-func fClose(ss []*asset.Snapshot) []float64 { return fld(ss, func(s *asset.Snapshot) float64 { return s.Close }) }
-func fVol(ss []*asset.Snapshot) []float64   { return fld(ss, func(s *asset.Snapshot) float64 { return s.Volume }) }
+func fOpen(ss []*asset.Snapshot) []float64 {
+	return fld(ss, func(s *asset.Snapshot) float64 { return s.Open })
+}
+func fHigh(ss []*asset.Snapshot) []float64 {
+	return fld(ss, func(s *asset.Snapshot) float64 { return s.High })
+}
+func fLow(ss []*asset.Snapshot) []float64 {
+	return fld(ss, func(s *asset.Snapshot) float64 { return s.Low })
+}
+func fClose(ss []*asset.Snapshot) []float64 {
+	return fld(ss, func(s *asset.Snapshot) float64 { return s.Close })
+}
+func fVol(ss []*asset.Snapshot) []float64 {
+	return fld(ss, func(s *asset.Snapshot) float64 { return s.Volume })
+}
 
 func fld(ss []*asset.Snapshot, f func(*asset.Snapshot) float64) []float64 {
 	out := make([]float64, len(ss))
